@@ -158,8 +158,17 @@ def gen_args(rng, positions, xenv, mode):
         return chosen[t['id']]
 
     def env_mixed(t):
-        if t['id'] in xenv and rng.random() < 0.8:
-            return xenv[t['id']]
+        if t['id'] in xenv:
+            x = xenv[t['id']]
+            r = rng.random()
+            if r < 0.6:
+                return x
+            # a "sibling" of X: same runtime class, other content (Cls[List[int]]: ['x'] next to [1])
+            if r < 0.85 and x[0] == 'gen' and x[2] in ('List', 'Set', 'FrozenSet', 'Dict', 'Tuple', 'Sequence', 'Iterable'):
+                leaf = rng.choice([['cls', 'str'], ['cls', 'bytes'], ['cls', ['user', [2]]], ['cls', 'float']])
+                return ['gen', x[1], x[2], [leaf for _ in x[3]]]
+            if r < 0.85 and x[0] == 'tuplevar':
+                return ['tuplevar', x[1], rng.choice([['cls', 'str'], ['cls', 'bytes'], ['cls', 'float']])]
         return ['cls', pick_cls(rng, t)]
     vals = []
     wrong = rng.randrange(len(positions)) if mode == 'near' else -1
